@@ -4,4 +4,13 @@ def main (args : List String) : IO UInt32 := do
   match args with
   | ["ring"] => Driver.RingC.main; return 0
   | ["kcp"] => Driver.KcpC.main; return 0
+  | ["sess"] => Driver.SessC.main; return 0
+  | ["wait"] => Driver.WaitC.main; return 0
+  | ["wire"] => Driver.WireC.main; return 0
+  | ["sched"] => Driver.SchedC.main; return 0
+  | ["sessin"] => Driver.SessInC.mainS; return 0
+  | ["listener"] => Driver.SessInC.mainL; return 0
+  | ["fec"] => Driver.FecC.main; return 0
+  | ["autotune"] => Driver.AutoTuneC.main; return 0
+  | ["cfb"] => Driver.CfbC.main; return 0
   | _ => IO.eprintln "usage: kcpdriver <component>"; return 2
